@@ -24,7 +24,7 @@ void harness(void) {
   case ND_NEG: case ND_BITNOT: n.lhs = &a; break;
   case ND_NOT: n.lhs = &a; n.ty = &CGT[TI_INT]; break;
   case ND_LOGAND: case ND_LOGOR: n.lhs = &a; n.rhs = &b; n.ty = &CGT[TI_INT]; break;
-  case ND_COND: n.cond = &c; n.then = &a; n.els = &b; break;
+  case ND_COND: n.cond = &c; n.then = &a; n.els = &b; if (TYC2 != TYC) { b.ty = t2; n.ty = &CGT[TI_VOID]; } break;   /* arms of different type (one void): the expression is void */
   case ND_COMMA: n.lhs = &c; n.rhs = &b; c.ty = t2; break;                     /* left operand of any type is discarded */
   case ND_CAST: n.lhs = &a; n.ty = t2; break;                                    /* TYC -> TYC2 */
   case ND_NUM: n.val = (int64_t)va; n.fval = 1.5L; break;
